@@ -62,7 +62,7 @@ def items(tier):
     out.append(({"tasks": [{"name": "T0", "work": 3.0, "auto": True, "nf": True, "unit": 0.5}], "links": [], "teams": []}, {"rule": "TSLACK", "max_time": 12}))
     for sp in F.double_link_specs() + [F.float_noise_spec()] + F.float_residue_specs():
         out.append((sp, {"rule": "TSLACK", "max_time": F.seq_bound(sp) + 10}))
-    for sp in F.same_name_task_specs() + F.auto_in_workplace_specs():
+    for sp in F.same_name_task_specs() + F.auto_in_workplace_specs() + F.ff_chain_specs() + F.nested_running_specs():
         out.append((sp, {"rule": "TSLACK", "max_time": F.seq_bound(sp) + 10}))
     for sp in F.auto_component_specs() + F.rule_sensitive_specs():
         for aa in (False, True):
